@@ -9,6 +9,7 @@ mod c01;
 mod c03;
 mod c04;
 mod c05;
+mod c07;
 mod c09;
 mod c12;
 mod c16;
@@ -50,6 +51,8 @@ fn main() {
         "c05_upsert" => c05::upsert(&v),
         "c05_state" => c05::state(&v),
         "c05_compress" => c05::compress(&v),
+        "c07_journal_parse" => c07::journal_parse(&v),
+        "c07_state_read" => c07::state_read(&v),
         "c09_lookup" => c09::lookup(&v),
         "c09_overlay" => c09::overlay(&v),
         "c09_blame" => c09::blame(&v),
